@@ -735,10 +735,9 @@ fn modes(q: &Name, apex: &Name, soa_variants: &[Option<Name>], qtypes: &[u16], n
 /// apex drawn from the universe (labels {a,b,*}, depth ≤ `zdepth`) with every type variant,
 /// every non-empty subset (≤ `max_subset` records) of its NSEC chain, every query name of depth
 /// ≤ `qdepth`, every response shape.
-fn enumerate(em: &mut Emit, apex: &Name, zdepth: usize, qdepth: usize, max_names: usize, max_subset: usize, soa_none: bool) {
-    let alphabet: [&[u8]; 3] = [b"a", b"b", b"*"];
-    let zu: Vec<Vec<Vec<u8>>> = universe(&alphabet, zdepth).into_iter().filter(|n| !n.is_empty()).collect();
-    let qu: Vec<Name> = universe(&alphabet, qdepth).iter().map(|r| rel_name(r, apex)).collect();
+fn enumerate(em: &mut Emit, alphabet: &[&[u8]; 3], apex: &Name, zdepth: usize, qdepth: usize, max_names: usize, max_subset: usize, soa_none: bool) {
+    let zu: Vec<Vec<Vec<u8>>> = universe(alphabet, zdepth).into_iter().filter(|n| !n.is_empty()).collect();
+    let qu: Vec<Name> = universe(alphabet, qdepth).iter().map(|r| rel_name(r, apex)).collect();
     let tvs: [&[u16]; 3] = [&[T_A], &[T_TXT], &[T_NS]];
     let soa_variants: Vec<Option<Name>> =
         if soa_none { vec![Some(apex.clone()), None] } else { vec![Some(apex.clone())] };
@@ -941,15 +940,26 @@ pub fn run(o: &Opts, rec: &mut Recorder) {
     }
     let x = Name::from_ascii("x.").unwrap();
     let thorough = o.thorough();
+    let ab: [&[u8]; 3] = [b"a", b"b", b"*"];
+    // `!` sorts before `*`: names below a wildcard-labelled name on both sides of `*.<it>`
+    let ab2: [&[u8]; 3] = [b"!", b"a", b"*"];
     {
-        let mut em = Emit { rec, seen: HashSet::new(), budget: o.n(60_000, 3_000_000) };
-        // depth ≤ 2 zones with ≤ 1 data name, queries to depth 3, with and without SOA
-        enumerate(&mut em, &x, 2, 3, 1, 2, true);
-        if thorough {
-            enumerate(&mut em, &x, 2, 3, 2, 3, true);
-            enumerate(&mut em, &x, 3, 3, 2, 3, false);
-            enumerate(&mut em, &Name::root(), 2, 2, 2, 3, true);
-        }
+        // zones with ≤ 1 data name (depth ≤ 2), queries to depth 3, with and without SOA
+        let mut em = Emit { rec, seen: HashSet::new(), budget: o.n(60_000, 200_000) };
+        enumerate(&mut em, &ab, &x, 2, 3, 1, 2, true);
+    }
+    if thorough {
+        let mut em = Emit { rec, seen: HashSet::new(), budget: 400_000 };
+        enumerate(&mut em, &ab2, &x, 2, 3, 2, 2, false);
+        let mut em = Emit { rec, seen: HashSet::new(), budget: 1_200_000 };
+        enumerate(&mut em, &ab, &x, 2, 3, 2, 3, true);
+        let mut em = Emit { rec, seen: HashSet::new(), budget: 1_000_000 };
+        enumerate(&mut em, &ab, &x, 3, 3, 2, 3, false);
+        let mut em = Emit { rec, seen: HashSet::new(), budget: 300_000 };
+        enumerate(&mut em, &ab, &Name::root(), 2, 2, 2, 3, true);
+    } else {
+        let mut em = Emit { rec, seen: HashSet::new(), budget: 15_000 };
+        enumerate(&mut em, &ab2, &x, 1, 3, 1, 2, false);
     }
     let mut r = Rng::new(o.seed);
     for _ in 0..o.n(30_000, 600_000) {
